@@ -39,8 +39,11 @@ ASSUME PrintT(ToJson([rates |-> [exc |-> Rate("exc", "d0"), rec |-> Rate("rec", 
                                  bmp |-> [s \in Names |-> <<Rate("bmp", <<s, 2>>), Rate("bmp", <<s, 3>>)>>],
                                  bes |-> [s \in Names |-> Rate("bes", s)], bcx |-> <<Rate("bcx", 1), Rate("bcx", 2), Rate("bcx", 3)>>]]))
 
-VARIABLES model, dens, temp, ne, te, nb
-vars == <<model, dens, temp, ne, te, nb>>
+VARIABLES model, dens, temp, ne, te, nb,
+          prior     \* what the model object was bound to and evaluated with before the configuration under test:
+                    \* "none" (first use), "provider" (another atomic-data provider), "plasma" (another plasma)
+vars == <<model, dens, temp, ne, te, nb, prior>>
+Priors == {"none", "provider", "plasma"}
 Absent == -9
 Present == {s \in Names : dens[s] # Absent}
 N(s) == dens[s]
@@ -50,6 +53,7 @@ Init == /\ model \in Models
         /\ temp \in [Names -> {3}] \cup {[s \in Names |-> IF s \in {"d0", "d1", "c6"} THEN 0 ELSE 3]}
         /\ ne \in NeVals /\ te \in TeVals
         /\ nb \in (IF model \in {"bcx", "bes"} THEN {0, 4} ELSE {0})
+        /\ prior \in (IF ne = 2 /\ te = 3 THEN Priors ELSE {"none"})      \* re-binding explored at the nominal electron state
         /\ (model \in {"bcx", "bes"} => /\ ne = 2 /\ te = 3 /\ \A s \in Names : dens[s] >= 0 \/ dens[s] = Absent
                                         /\ \E s \in Names : dens[s] > 0 /\ Charge(s) > 0)
 
@@ -105,8 +109,10 @@ NonNegative == (model \in {"exc", "rec", "tcx", "trp", "brems"} /\ ~Unspecified)
 QBetween == (model = "bcx" /\ ~Raises /\ QMean[2] > 0) =>
                /\ Rate("bcx", 1) * QMean[2] <= QMean[1] /\ QMean[1] <= Rate("bcx", 3) * QMean[2]
 BeamVanishes == (model \in {"bcx", "bes"} /\ nb = 0) => BeamTotal[1] = 0
+\* the totals are functions of the current binding only: nothing in the rules refers to what the model saw before
+\* (Total, BeamTotal and Raises do not mention prior; the harness evaluates the model under the prior binding first)
 
-EmitCase == PrintT(ToJson([model |-> model, dens |-> dens, temp |-> temp, ne |-> ne, te |-> te, nb |-> nb, raises |-> Raises,
+EmitCase == PrintT(ToJson([model |-> model, prior |-> prior, dens |-> dens, temp |-> temp, ne |-> ne, te |-> te, nb |-> nb, raises |-> Raises,
                            total |-> Total, unspecified |-> Unspecified, beam_total |-> BeamTotal,
                            needs |-> Needs, donors |-> Donors, hyd |-> Hyd,
                            species |-> Sp, zeff |-> <<SumZ2N, SumZN>>, nion |-> SumN]))
